@@ -1504,7 +1504,12 @@ get_hist_size(struct isal_zstream *stream, uint8_t *start_in, int32_t buf_hist_s
                         history_size = (stream->total_in - state->block_next);
                 }
         } else if (stream->avail_in + buffered_size == 0 &&
-                   (stream->end_of_stream || stream->flush == FULL_FLUSH)) {
+                   (stream->end_of_stream ||
+                    (stream->flush == FULL_FLUSH && state->has_hist == IGZIP_NO_HIST))) {
+                /* History is only dead once the full flush has actually been
+                 * written (which clears has_hist). While it is still pending for
+                 * lack of output space the caller may supply more input, and the
+                 * matcher would then follow hash entries into dropped history. */
                 history_size = 0;
         }
         return history_size;
